@@ -365,7 +365,9 @@ func init() {
 				{Backing: "store", MinMergePct: 100, Concern: 1, CachePersisted: true},
 				{Backing: "store", MinMergePct: 100, Concern: 0},
 			},
-			Steps: []string{"M", "Pb", "Pe", "S+", "CS+", "I+", "SS+", "H-", "R"},
+			Steps: []string{"M", "Pb", "Pe", "S+", "CS+", "I+", "IX", "SS+", "H-", "R"},
+			// two persisted rounds leaving at least two live keys in the store, plus one batch still in memory
+			Roots: [][]string{{"B0", "M", "Pb", "Pe", "B2", "M", "Pb", "Pe", "B0"}, {"B2", "M", "Pb", "Pe", "B1"}},
 			MaxB:  2, MaxD: 7, MaxK: 0, MaxH: 2, MaxR: 1, Deadline: tierDeadline(tier), WithRefs: true,
 			Note: "reference counters are part of the state key; oracle in every state: open handles still readable; terminal phase from every state: close the remaining handles, the collection and the store in every order, then no descriptor, no mapping, at most one data file"}
 		if tier == "thorough" {
